@@ -330,6 +330,20 @@ def stateful_programs():
                   input={'xs': ['i0', 'i1']})
     out.append(('items2', prog, {'i0': ['S'], 'i1': ['S'], 'b': ['S']},
                 dict(compare_ctx=False)))
+    # with-items over sub-workflows under a concurrency limit: the result
+    # message of an item delivered twice must not disturb the slot accounting
+    leaf1 = direct({'s': {'action': 'act', 'key': '<% $.k %>'}},
+                   input={'k': None})
+    for conc in (1, 2):
+        prog = direct({'a': {'with-items': 'i in <% $.xs %>',
+                             'workflow': 'sub',
+                             'wf-input': {'k': '<% $.i %>'},
+                             'concurrency': conc, 'on-success': ['b']},
+                       'b': T()},
+                      input={'xs': ['i0', 'i1']}, subs={'sub': leaf1})
+        out.append(('items_subwf_c%d' % conc, prog,
+                    {'i0': ['S'], 'i1': ['S'], 'b': ['S']},
+                    dict(compare_ctx=False)))
     return out
 
 
@@ -355,6 +369,8 @@ def scenarios(tier):
                      'wf_result'):
             if kind in ('start_workflow', 'wf_result') and \
                     'subwf' not in pname:
+                continue
+            if pname.startswith('items_subwf') and kind == 'start_task':
                 continue
             scn = DupScenario('%s/dup-%s' % (pname, kind), prog,
                               results=res, dup_kinds=[kind],
